@@ -1,34 +1,43 @@
 #!/bin/bash
 # Must-fail corpus: applies each /verif/selftest/<name>/patch.diff to a scratch git worktree of /repo (HEAD plus the
 # contract sidecars; /repo itself is never touched), runs the quick check of the property it breaks there (expect exit 1 +
-# VIOLATION) or of a benign edit (expect exit 0), then reverts. The scratch worktree is removed at the end.
-# usage: selftest.sh [name-prefix]        results of a full run are copied to /verif/selftest/RESULTS.txt
-W=/tmp/verif-selftest-repo-$$
-git -C /repo worktree add -q --detach $W HEAD || exit 2
-trap 'git -C /repo worktree remove --force $W >/dev/null 2>&1; rm -rf /tmp/verif-selftest-evidence-$$ /tmp/verif-selftest-replays-$$' EXIT
-cp /repo/go.sum $W/go.sum 2>/dev/null
-pass=0; fail=0
+# VIOLATION) or of a harmless edit (expect exit 0), then reverts. Scratch worktrees are removed at the end.
+# usage: selftest.sh [name-prefix]        a full run uses 4 parallel workers and copies its results to /verif/selftest/RESULTS.txt
+prefix=$1
+worker() { # $1 = worker index, $2 = number of workers
+  local W=/tmp/verif-selftest-repo-$$-$1
+  git -C /repo worktree add -q --detach $W HEAD || return 2
+  local n=0
+  for d in /verif/selftest/${prefix}*/; do
+    [ -f $d/patch.diff ] || continue
+    n=$((n+1)); [ $((n % $2)) -eq $1 ] || continue
+    name=$(basename $d)
+    prop=$(python3 -c "import json;print(json.load(open('$d/meta.json'))['property'])")
+    expect=$(python3 -c "import json;print(json.load(open('$d/meta.json'))['expect'])")
+    git -C $W checkout -q --detach $(git -C /repo rev-parse HEAD)   # follow /repo's HEAD
+    git -C $W apply $d/patch.diff || { echo "BAD  $name: PATCH DOES NOT APPLY"; continue; }
+    noretry=""; [ "$expect" = "violation" ] && noretry=1
+    out=$(VERIF_NO_RETRY=$noretry VERIF_REPO=$W VERIF_EVIDENCE_DIR=/tmp/verif-selftest-evidence-$$-$1 VERIF_REPLAY_DIR=/tmp/verif-selftest-replays-$$-$1 /verif/govc/bin/govc check -p $prop -tier quick 2>&1); rc=$?
+    git -C $W checkout -q -- . ; git -C $W clean -fdq -- . >/dev/null 2>&1
+    if [ "$expect" = "violation" ]; then
+      if [ $rc -eq 1 ] && echo "$out" | grep -q "^VIOLATION property=$prop"; then
+        echo "ok   $name ($prop): $(echo "$out" | grep -m1 '^FAILED OBLIGATION' | cut -c1-150)"
+      else echo "MISS $name ($prop): rc=$rc"; fi
+    else
+      if [ $rc -eq 0 ]; then echo "ok   $name ($prop): harmless edit passes"
+      else echo "FALSE-ALARM $name ($prop): $(echo "$out" | grep -m1 '^FAILED OBLIGATION' | cut -c1-150)"; fi
+    fi
+  done
+  git -C /repo worktree remove --force $W >/dev/null 2>&1
+  rm -rf /tmp/verif-selftest-evidence-$$-$1 /tmp/verif-selftest-replays-$$-$1
+}
 log=/tmp/verif-selftest-$$.log; : > $log
-for d in /verif/selftest/${1}*/; do
-  [ -f $d/patch.diff ] || continue
-  name=$(basename $d)
-  prop=$(python3 -c "import json;print(json.load(open('$d/meta.json'))['property'])")
-  expect=$(python3 -c "import json;print(json.load(open('$d/meta.json'))['expect'])")
-  git -C $W checkout -q --detach $(git -C /repo rev-parse HEAD)   # follow /repo's HEAD (contracts may have been committed meanwhile)
-  git -C $W apply $d/patch.diff || { echo "$name: PATCH DOES NOT APPLY" | tee -a $log; fail=$((fail+1)); continue; }
-  noretry=""; [ "$expect" = "violation" ] && noretry=1
-  out=$(VERIF_NO_RETRY=$noretry VERIF_REPO=$W VERIF_EVIDENCE_DIR=/tmp/verif-selftest-evidence-$$ VERIF_REPLAY_DIR=/tmp/verif-selftest-replays-$$ /verif/govc/bin/govc check -p $prop -tier quick 2>&1); rc=$?
-  git -C $W checkout -- . ; git -C $W clean -fdq -- . >/dev/null 2>&1
-  if [ "$expect" = "violation" ]; then
-    if [ $rc -eq 1 ] && echo "$out" | grep -q "^VIOLATION property=$prop"; then
-      echo "ok   $name ($prop): $(echo "$out" | grep -m1 '^FAILED OBLIGATION' | cut -c1-150)" | tee -a $log; pass=$((pass+1))
-    else echo "MISS $name ($prop): rc=$rc" | tee -a $log; fail=$((fail+1)); fi
-  else
-    if [ $rc -eq 0 ]; then echo "ok   $name ($prop): benign edit passes" | tee -a $log; pass=$((pass+1))
-    else echo "FALSE-ALARM $name ($prop): $(echo "$out" | grep -m1 '^FAILED OBLIGATION' | cut -c1-150)" | tee -a $log; fail=$((fail+1)); fi
-  fi
-done
-echo "selftest: $pass ok, $fail bad" | tee -a $log
-[ -z "$1" ] && cp $log /verif/selftest/RESULTS.txt
+workers=4; [ -n "$prefix" ] && workers=1
+for i in $(seq 0 $((workers-1))); do worker $i $workers >> $log 2>&1 & done
+wait
+sort -k2 $log
+pass=$(grep -c '^ok' $log); fail=$(grep -vc '^ok' $log)
+echo "selftest: $pass ok, $fail bad"
+[ -z "$prefix" ] && { sort -k2 $log; echo "selftest: $pass ok, $fail bad"; } > /verif/selftest/RESULTS.txt
 rm -f $log
 [ $fail -eq 0 ]
